@@ -189,6 +189,8 @@ def check(run):
                         'store / return along _recv -> run -> WebSocket.feed -> WebsocketStream.feed -> Parser.feed', 6)
     R.rule('C01.conserve', 'each frame pulled from the parser is consumed exactly once on every path; the fragment list is '
                            'emptied after each message; _frames has no other writer', 5)
+    from . import C04 as _C04f
+    _C04f.frame_fresh(R, 'C01.conserve')
     R.rule('C01.dispatch', 'opcode -> message class table, class opcodes, is_* properties and the event dispatch agree; '
                            'each branch yields one event carrying the message\'s own payload attribute', 14)
     R.rule('C01.length', 'payload read count is the decoded wire length (7-bit, !H, !Q forms); header fields and '
